@@ -16,7 +16,8 @@ RULE = ("cases = (hash, v, r, s) tuples driven through ecdsa_raw_recover on the 
         "grid v x r x s x hash from the property's quantifier plus sign-derived high-s/swapped-v signatures and the constructed identity case; "
         "W4: the module constants P, N, A, B, G are rebound to small prime-order curves with P = 3 mod 4 and EVERY (v, r, s, z) with "
         "0 <= r < P, 0 <= s <= 2N, 0 <= z <= N+1 goes through the unchanged function (r in [N, P), r or s = 0 mod N, non-residues, identity result all occur); "
-        "distinct = distinct (hash, v, r, s); non-trivial = every case (the suite has one recover call)")
+        "distinct = distinct (hash, v, r, s); non-trivial = every case (the suite has one recover call)"
+        " r values whose inverse mod N has a structured bit pattern (aligned zero words, 2^64, 2^128, 2^192, low weight).")
 ASSUMPTIONS = ["r >= P and negative r/s are outside the statement and not generated"]
 P, N = MS.P, MS.N
 
